@@ -455,20 +455,14 @@ class Step:
 
     def store_target(self, lhs, st):
         """(declaration id, text) of the lvalue a store goes to; `*p` with p bound to the address of a
-        file-scope object (pointee) reads as that object.  A store through a helper's pointer parameter whose
-        argument is not resolved that way (and is not a call result, which the rules classify themselves)
-        cannot be attributed to an object: no verdict."""
+        file-scope object (pointee) reads as that object.  Any other `*p` keeps the term of p
+        in the event (lhs_shape): the rules classify it (a call result, the caller's out-parameter) or give no
+        verdict (C06.R1: a pointer that cannot be attributed to the receive buffer)."""
         if kind(lhs) == "UnaryOperator" and lhs.get("opcode") == "*":
             pe = strip(kids(lhs)[0], casts=True)
             obj = self.pointee(pe, st)
             if obj is not None:
                 return None, obj, True
-            i = ref_id(pe)
-            if st.frames and i is not None and pe.get("referencedDecl", {}).get("kind") == "ParmVarDecl" \
-                    and st.env.get(i, ("expr",))[0] == "expr":
-                raise AnalysisError("%s(): %s() stores through its pointer parameter `%s`, bound to `%s`: not the address "
-                                    "of an object of the file -- unclassifiable" % (
-                                        self.fname, st.frames[-1][2], ctext(pe), st.env.get(("txt", i), "?")))
         return ref_id(lhs), ctext(lhs), False
 
     def argtext(self, a, st):
@@ -1319,7 +1313,7 @@ class Rx:
                     if bt[0] == "call" and bt[1] == "msgb_put":
                         out.append(("payload", shape[2], t))
                     else:
-                        out.append(("ptrstore", ltxt, t))
+                        out.append(("ptrstore", ltxt, t, bt))
                 else:
                     out.append(("field", ltxt, t))
             elif e[0] == "compound":
@@ -1670,6 +1664,7 @@ def r1_bounded_store(L, tu, tag, size, rx):
         if Rx.room(p) is False:
             continue
         acts = Rx.acts(p)
+        unattributed_store(acts)
         nput = [a for a in acts if a[0] == "put"]
         worst = max(worst, len(nput))
         cur = None
@@ -2005,6 +2000,16 @@ def r2_tx(L, tu, tag, tx):
     return K
 
 
+def unattributed_store(acts):
+    """The store of a row that goes through a pointer about which nothing is known (not a fresh msgb_put result,
+    not an expression over the receive buffer, not resolved to an object at the call site of a followed helper):
+    where it lands cannot be said, so neither 'stored into field X' nor 'foreign write' is decided -> no verdict."""
+    for a in acts:
+        if a[0] == "ptrstore" and RXM not in str(a[3][1:]):
+            raise AnalysisError("%s(): store through `%s` (pointer = %s), which cannot be attributed to the receive "
+                                "buffer or to another object -- unclassifiable" % (RX_FN, a[1], ctext_term(a[3])))
+
+
 def frame_chain(rx, K):
     """Frame-interior consuming states in wire order: [(state, sink, next, raw octets)]."""
     idle = 0
@@ -2013,6 +2018,8 @@ def frame_chain(rx, K):
     while s not in [c[0] for c in chain] and s != idle:
         rc = rx.raw_class(s)
         if rc is None:
+            for sig in rx.classes(s):
+                unattributed_store(sig[1])
             break
         chain.append((s, rc[0], rc[1], rc[2]))
         s = rc[1]
@@ -2605,8 +2612,8 @@ def r4_queue_scan(L, tu, tx, tag="", histories_held=False):
             raise AnalysisError(msg)
 
         def start_not_proven():
-            raise AnalysisError(msg + " (starts at %s; that every queue below is empty then was decided on the "
-                                "C06.R14 histories only)" % sorted(hints))
+            raise AnalysisError("scan starts at %s, not at a constant: that every queue below is empty then was decided "
+                                "on the C06.R14 histories only" % sorted(hints))
         L.structural("C06.R4 start of the priority scan in %s [%s]" % (SCAN_FN, tag), start_not_proven)
         first.discard("not constant")
     if shortcuts:
@@ -4650,7 +4657,11 @@ def r14_tx_histories(L, tu, mtu, tag, size):
     oldest message of the lowest-numbered DLCI that has messages queued AT THAT MOMENT - a message queued later
     cannot be meant, one queued earlier on a lower DLCI must not wait for a frame that had not begun.  Each
     history is an input of the property's quantifier, so a different order (or a lost / duplicated message) is
-    a counterexample; a step the evaluation cannot follow is no verdict."""
+    a counterexample; a step the evaluation cannot follow is no verdict.  Two histories are there for a scan that
+    starts at a remembered index (C06.R4 leaves that start to these folds): a high DLCI pulled until idle / for
+    one frame, then a lower and a higher DLCI queued - the index must be lowered by every enqueue below it, by the
+    neighbouring DLCI too (lo and mid are neighbours), and must not move past a queue that still holds messages.
+    Returns True when every history arrived in order."""
     R = "C06.R14"
     for fn in (SEND, PULL):
         L.fn(F, fn)
